@@ -14,13 +14,18 @@ import (
 // eventEffects returns the committed effects of the call events of a path, in order.
 func (c *Check) pathEffects(f *Func, pa *Path) []*Eff {
 	var out []*Eff
-	for _, ev := range pa.Events {
+	for i, ev := range pa.Events {
 		if ev.Kind != EvCall {
 			continue
 		}
 		// one effect per primitive site: value variants of a callee (loop unrollings) are not separate occurrences
 		seen := map[string]bool{}
 		for _, e := range c.P.effectsOfEvent(f, ev) {
+			// an effect the callee performs only under a condition on its arguments that this path has already
+			// decided the other way does not happen on this path (pure conditions only: no module function is read)
+			if c.effRefutedOnPath(pa, i, e) {
+				continue
+			}
 			k := e.SiteKey() + e.Family
 			if len(e.Chain) > 0 && seen[k] {
 				continue
@@ -822,4 +827,37 @@ func (c *Check) errorAlwaysPropagated(f *Func) bool {
 		}
 	}
 	return n > 0
+}
+
+// pureTerm: the term reads no module function (its value cannot change between two points of a path).
+func (c *Check) pureTerm(t *Term) bool {
+	pure := true
+	t.Walk(func(x *Term) bool {
+		if x.Op == "res" || x.Op == "out" || x.Op == "dyn" {
+			pure = false
+		}
+		if g := c.P.FuncNamed(x.Op); g != nil && g.isHandWritten() {
+			pure = false
+		}
+		if strings.Contains(x.Op, "KVStore.") || strings.Contains(x.Op, "Keeper.") {
+			pure = false
+		}
+		return pure
+	})
+	return pure
+}
+
+// effRefutedOnPath: the callee performs e only under a pure condition on its arguments which the path has decided
+// the other way before the call (event index i).
+func (c *Check) effRefutedOnPath(pa *Path, i int, e *Eff) bool {
+	if len(e.Chain) == 0 || len(e.Guards) == 0 {
+		return false
+	}
+	before := pa.FactsBefore(i)
+	for _, g := range e.Guards {
+		if c.pureTerm(g.T) && before.Holds(g.T, g.Neg) {
+			return true
+		}
+	}
+	return false
 }
